@@ -38,6 +38,10 @@ package rulelist
 //@   modifies nothing
 //@   ensures err == nil ==> f != nil && fresh(f) && RL(f) && f.filter.engine != nil
 //@   ensures err != nil ==> f == nil
+//@ func NewImmutable
+//@   modifies nothing
+//@   ensures err == nil ==> f != nil && fresh(f)
+//@   ensures err != nil ==> f == nil
 // A managed result cache is a new cache (or the cache that stores nothing).
 //@ func NewManagedResultCache
 //@   modifies nothing
